@@ -56,15 +56,19 @@ def bind_args(call: ast.Call, fn: ast.FunctionDef, skip_first=True):
 
 
 def run(ctx: Context, col) -> None:
+    from .common import Parts
+
+    part = Parts()
     for cls in ctx.solvers():
         loop = ctx.solve_loop(cls)
-        _periodic(ctx, cls, loop, col)
-        _final(ctx, cls, loop, col)
-        _flow(ctx, cls, col)
-    _setup(ctx, col)
-    _enabled(ctx, col)
-    _writers(ctx, col)
-    _override_zero(ctx, col)
+        part(_periodic, ctx, cls, loop, col)
+        part(_final, ctx, cls, loop, col)
+        part(_flow, ctx, cls, col)
+    part(_setup, ctx, col)
+    part(_enabled, ctx, col)
+    part(_writers, ctx, col)
+    part(_override_zero, ctx, col)
+    part.finish()
     col.floor("R12.7", 2)
     col.floor("R12.1", 6)
     col.floor("R12.2", 5)
